@@ -253,8 +253,13 @@ def tr : P String := do
       ill := true
       continue
     let r1 := toRows S A q1
+    -- every stored pair receives `error * el`: the rounding error of `error` (relative 1e-16 of the table magnitude) is
+    -- amplified by the eligibility, which ImportanceSampling lets grow above one — scale the tolerances accordingly
+    let elMax := (outT ++ t1).foldl (fun m x => if m < absQ x.el then absQ x.el else m) 1
+    let tolS := tolStep * elMax
+    let tolR := tolRun * elMax
     v := v.diffIf (!(closeTraces tolStep t1 outT)) s!"{comp} step {k} traces model={showTraces t1} impl={showTraces outT}"
-    v := v.diffIf (!(closeRowsScaled tolStep r1 out)) s!"{comp} step {k} table from-impl-state model={showRows r1} impl={showRows out}"
+    v := v.diffIf (!(closeRowsScaled tolS r1 out)) s!"{comp} step {k} table from-impl-state model={showRows r1} impl={showRows out}"
     -- pure trajectory
     let ((t2, q2), _) := stepTR L γ α lam tol ε A πt πb mT (ofRows mQ) e
     let r2 := toRows S A q2
@@ -263,7 +268,7 @@ def tr : P String := do
     let qm := ofRows mQ
     let mAm := argmaxA A (qm s1)
     let nearTie := L.startsWith "c-" && (List.range A).any (fun x => x != mAm && closeQ tolRun (qm s1 x) (qm s1 mAm))
-    v := v.diffIf (!nearTie && !(closeRowsScaled tolRun r2 out)) s!"{comp} step {k} table trajectory model={showRows r2} impl={showRows out}"
+    v := v.diffIf (!nearTie && !(closeRowsScaled tolR r2 out)) s!"{comp} step {k} table trajectory model={showRows r2} impl={showRows out}"
     -- (L3) trace clauses on the implementation's own list
     if lamFamily && decide (tol ≤ 1) then
       v := v.failIf (!(tracesInRange tol outT)) s!"{comp} trace_out_of_range step {k} traces={showTraces outT} tol={ratStr tol}"
@@ -273,7 +278,7 @@ def tr : P String := do
     -- (L3) λ = 0: exactly the one-step expected backup of the target policy, nothing else moves
     if lamFamily && lam == 0 then
       let exp := toRows S A (oneStep L γ α ε A πt qp e)
-      v := v.failIf (!(closeRowsScaled tolStep exp out)) s!"{comp} lambda0_not_one_step step {k} expected={showRows exp} impl={showRows out}"
+      v := v.failIf (!(closeRowsScaled tolS exp out)) s!"{comp} lambda0_not_one_step step {k} expected={showRows exp} impl={showRows out}"
       let othersSame := ((prev.zip out).zipIdx).all (fun ((rp, ro), si) => ((rp.zip ro).zipIdx).all (fun ((x, y), ai) => (si == s && ai == a) || x == y))
       v := v.failIf (!othersSame) s!"{comp} lambda0_not_one_step step {k} other entries moved impl={showRows out}"
     if hypS then
@@ -304,19 +309,25 @@ def tr : P String := do
 def mkMDP (S A : Nat) (γ : Rat) (T : List Rat) (R : Rows) : MDP :=
   { S := S, A := A, γ := γ, T := fun s a s1 => T.getD ((s * A + a) * S + s1) 0, R := ofRows R }
 
-def psGo (m : MDP) (θ : Rat) (S A : Nat) : Nat → PS → PS × Nat
+def psGo (mb mq : MDP) (θ : Rat) (S A : Nat) : Nat → PS → PS × Nat
   | 0, st => (st, 0)
   | f+1, st =>
     if st.queue.isEmpty then (st, f+1) else
-    let st' := psBatch m θ topIdx 1 st
-    psGo m θ S A f { st' with q := ofRows (toRows S A st'.q), v := ofVec (toVec S st'.v), done := [] }
+    let i := topIdx st.queue
+    match st.queue[i]? with
+    | none => (st, f+1)
+    | some e =>
+      let st' := psStepG mb mq θ { st with queue := removeAt st.queue i } e.s e.a
+      psGo mb mq θ S A f { st' with q := ofRows (toRows S A st'.q), v := ofVec (toVec S st'.v), done := [] }
 
 /-- `ps S A γ θ T[S*A*S] R[S×A] k (s a)*k | Q[S×A] V[S] qlen VIQ[S×A]` : explicit steps in the given order,
     then batchUpdateQ until the queue is empty -/
 def ps : P String := do
+  let kind ← P.tok
   let S ← P.nat; let A ← P.nat; let γ ← P.q; let θ ← P.q
   let T ← P.rep P.q (S * A * S)
   let R ← tab S A
+  let R3 ← P.rep P.q (S * A * S)
   let order ← P.list (do let s ← P.nat; let a ← P.nat; pure (s, a))
   P.bar
   let implQ ← tab S A
@@ -325,28 +336,31 @@ def ps : P String := do
   let viQ ← tab S A
   P.eof
   if A == 0 || S == 0 then P.fail
-  let m := mkMDP S A γ T R
-  let v : Verdict := { tag := "ps" }
+  let m0 := mkMDP S A γ T R                  -- the MDP the learner was given (L3 is evaluated against it)
+  -- what the code computes: the generic (non-Eigen) branch skips transitions with probability <= 1e-6
+  let m := if kind == "generic" then truncMDP S A γ m0.T (fun s a s1 => R3.getD ((s * A + a) * S + s1) 0) else m0
+  let comp := if kind == "generic" then "PrioritizedSweeping.generic" else "PrioritizedSweeping"
+  let v : Verdict := { tag := s!"ps-{kind}" }
   -- model: same explicit steps, then pop max-priority until empty (fuel bounds the run)
   let st0 := order.foldl (fun st (p : Nat × Nat) =>
-      let st' := psStep m θ st p.1 p.2
+      let st' := psStepG m m0 θ st p.1 p.2
       { st' with q := ofRows (toRows S A st'.q), v := ofVec (toVec S st'.v), done := [] }) PS.init
-  let (stF, left) := psGo m θ S A 200000 st0
+  let (stF, left) := psGo m m0 θ S A 200000 st0
   let covered := (List.range S).all (fun s => (List.range A).all (fun a => order.contains (s, a)))
   let mQ := toRows S A stF.q
   let tolPS : Rat := 1 / 10000000
   let v := v.diffIf (left == 0) s!"PrioritizedSweeping model queue not empty after fuel"
   let v := v.diffIf (left != 0 && !(closeRows tolPS mQ implQ)) s!"PrioritizedSweeping final Q model={showRows mQ} impl={showRows implQ}"
   -- (L3) on the implementation's own output
-  let v := v.failIf (qlen != 0) s!"PrioritizedSweeping queue_not_empty {qlen}"
+  let v := v.failIf (qlen != 0) s!"{comp} queue_not_empty {qlen}"
   let qi := ofRows implQ
-  let res := bellmanResidual m qi
+  let res := bellmanResidual m0 qi
   let scale := 1 + absQ (hiC (R.foldl (fun acc r => r.foldl (fun a x => if a < absQ x then absQ x else a) acc) 0) γ)
   let v := if covered && qlen == 0 then
-      let v := v.failIf (decide (res > tolPS * scale)) s!"PrioritizedSweeping not_bellman_fixed_point residual={ratStr res}"
-      let v := v.failIf (!(closeRows tolPS implQ viQ)) s!"PrioritizedSweeping differs_from_value_iteration ps={showRows implQ} vi={showRows viQ}"
+      let v := v.failIf (decide (res > tolPS * scale)) s!"{comp} not_bellman_fixed_point residual={ratStr res}"
+      let v := v.failIf (!(closeRows tolPS implQ viQ)) s!"{comp} differs_from_value_iteration ps={showRows implQ} vi={showRows viQ}"
       let vOK := ((List.range S).zip implV).all (fun (s, x) => x == maxA A (qi s))
-      v.failIf (!vOK) s!"PrioritizedSweeping value_not_row_max"
+      v.failIf (!vOK) s!"{comp} value_not_row_max"
     else { v with tag := v.tag ++ " uncovered" }
   return v.render
 
@@ -393,12 +407,15 @@ def topCands (queue : List QE) : List Nat :=
     Q and V are re-synchronised with the implementation after every event; the queue (not observable beyond its
     length) is carried by the model. -/
 def psw : P String := do
+  let kind ← P.tok
   let S ← P.nat; let A ← P.nat; let γ ← P.q; let θ ← P.q
   let T ← P.rep P.q (S * A * S)
   let R ← tab S A
+  let R3 ← P.rep P.q (S * A * S)
   let nev ← P.nat
   if A == 0 || S == 0 then P.fail
-  let m := mkMDP S A γ T R
+  let m0 := mkMDP S A γ T R
+  let m := if kind == "generic" then truncMDP S A γ m0.T (fun s a s1 => R3.getD ((s * A + a) * S + s1) 0) else m0
   let mut q : Rows := (List.range S).map (fun _ => (List.range A).map (fun _ => (0 : Rat)))
   let mut vv : List Rat := (List.range S).map (fun _ => (0 : Rat))
   -- the heap's choice among equal priorities is not observable when both backups leave the table unchanged, so the
@@ -417,16 +434,16 @@ def psw : P String := do
     if ill then continue
     let candsOf (queue : List QE) : List PS :=
       let base : PS := { q := ofRows q, v := ofVec vv, queue := queue, done := [] }
-      if kind == 1 then [psStep m θ base s a]
+      if kind == 1 then [psStepG m m0 θ base s a]
       else if queue.isEmpty then [base]
-      else (topCands queue).filterMap (fun i => (queue[i]?).map (fun e => psStep m θ { base with queue := removeAt queue i } e.s e.a))
+      else (topCands queue).filterMap (fun i => (queue[i]?).map (fun e => psStepG m m0 θ { base with queue := removeAt queue i } e.s e.a))
     let cands := queues.flatMap candsOf
     let v0 := ofVec vv
     -- a parent priority within rounding (absolute 1e-13: |V' - V| carries up to ~1e-14) of the threshold makes the push
     -- decision ill-conditioned
     let near := cands.any (fun c => (List.range S).any (fun ss => (List.range A).any (fun aa =>
         (List.range S).any (fun s0 =>
-          let d := absR (c.v s0 - v0 s0) * m.T ss aa s0
+          let d := absR (c.v s0 - v0 s0) * m0.T ss aa s0
           d != θ && d != 0 && decide (absR (d - θ) ≤ 1 / 10000000000000)))))
     -- once the largest pending priority is below 1e-9 the table changes are at the level of the comparison
     -- tolerance (1e-11) and the popped pair can no longer be identified from the implementation's output
